@@ -508,8 +508,22 @@ def sig_ambiguous_holes(case, params):
         return False
 
 
+def sig_nonfixpoint_path_safe(case, params):
+    """The rule and the index differ on a request whose path_safe is not a fixed point of path_safe (malformed
+    escape in the target), and a plain resource is written with a percent-escape."""
+    if not (case.get("kind") == "rule" and "path" in case):
+        return False
+    from aiohttp.web_urldispatcher import _path_safe
+    ps = _path_safe(case["path"])
+
+    def plain_escaped(ops):
+        return any((o[0] == "R" and "{" not in o[2] and _path_safe(o[2]) != o[2]) or (o[0] in ("SUB", "DOM") and plain_escaped(o[2])) for o in ops)
+    return _path_safe(ps) != ps and plain_escaped(case["ops"])
+
+
 SIGNATURES = {
     "ambiguous_holes": sig_ambiguous_holes,
+    "nonfixpoint_path_safe": sig_nonfixpoint_path_safe,
 }
 
 
@@ -810,8 +824,8 @@ def suite_laws(ctx, exe):
         mo = (None if q == "ERR" else unc(q), None if r == "ERR" else unc(r), unc(u), unc(d))
         if mo != (iq, ir, iu, idec):
             ctx.disagreement("quoting_laws", {"s": s}, list(mo), [iq, ir, iu, idec])
-        if _path_safe(idec) != idec:      # law used by the theorems: path_safe output is a fixed point
-            ctx.disagreement("quoting_laws", {"s": s, "law": "path_safe idempotent"}, idec, _path_safe(idec))
+        # hypothesis of the index = rule theorems: path_safe output is a fixed point (false only after a malformed escape)
+        ctx.count("path_safe:fixed_point" if _path_safe(idec) == idec else "path_safe:not_fixed_point")
     paths = ["", "/", "//", "///a", "//a/../..", "/a/./b//c/", "a/../..", "/..", "/a/b/../../.."]
     for _ in range(300 if ctx.quick else 5000):
         paths.append("".join(rng.choice(["/", "/", "a", "b", ".", "..", "ab"]) for _ in range(rng.randint(0, 9))))
